@@ -18,7 +18,10 @@ def seeds(tier, seed):
         out.append(("example:" + os.path.basename(f), open(f, "rb").read()))
     for snippet in ["cmd (--color=(always | never | auto) \"when\" | -v) <PATH>... [--] {{{ echo a\tb }}};\n<X@bash> = {{{ compgen -A user }}};\n",
                     "grep [<OPTION>]... <PATTERN> <FILE>...;\n<OPTION> ::= --color=<WHEN> | -e <PATTERN> \"pattern\";\n<WHEN> ::= always | never;\n",
-                    "cargo +<toolchain> (build | test) || help;\n<toolchain> ::= {{{ rustup toolchain list | cut -d' ' -f1 }}};\n"]:
+                    "cargo +<toolchain> (build | test) || help;\n<toolchain> ::= {{{ rustup toolchain list | cut -d' ' -f1 }}};\n",
+                    "cmd (foo || --opt=(a|b));\n", "cmd <MODE> [--verbose];\n<MODE> = fast | slow || --level=<LEVEL>;\n<LEVEL> = 1|2|3;\n",
+                    "cmd (a || b || {{{ echo x }}}:(u|v));\n", "cmd (--a=(foo || bar) | --b=(baz || qux)) <FILE> \"a file\";\n",
+                    "cmd (start \"boot it\" | stop \"halt it\") \"lifecycle\" [--x=<U>]...;\n"]:
         out.append(("snippet", snippet.encode()))
     n = 12 if tier == "quick" else 80
     made = 0
